@@ -93,6 +93,11 @@ impl Property for C15 {
                         tokens.push((it.join.clone(), false, false));
                     }
                 }
+                // one stream in four is what a speech recogniser hands over: no whitespace tokens at all, so that
+                // two occurrences can be directly adjacent (end == next start)
+                if force & 0xC0 == 0xC0 {
+                    tokens.retain(|t| !is_ws(&t.0));
+                }
                 for (i, t) in tokens.iter_mut().enumerate() {
                     let h = hints.get(i).copied().unwrap_or(0);
                     t.1 = h & 0x0f == 1;
@@ -352,6 +357,7 @@ impl Property for C15 {
             _ => "occurrences>=4",
         });
         obs.label_if(c.repeat > 1, "repeated-long-stream");
+        obs.label_if(batch.windows(2).any(|w| w[0].end == w[1].start), "adjacent-occurrences(no-gap-stream)");
         if hinted_inside || batch.len() >= 4 {
             obs.nontrivial(&(&c.lang, &c.tokens, c.th_bits, c.repeat));
         }
